@@ -29,10 +29,11 @@ MISSING=$(cat /tmp/suite_$ID.cmp)
 mv /tmp/demo_$ID.rs tests/demo_mutant.rs
 cargo test --offline --test demo_mutant > /tmp/demo_with_$ID.out 2>&1; WITH_RC=$?
 WITH=$(grep -E "^test result" /tmp/demo_with_$ID.out | head -1)
-git stash -q -- src
+# (no git stash: the stash is shared by all worktrees of a repository)
+git apply -R "$OUT/patch.diff" || exit 2
 cargo test --offline --test demo_mutant > /tmp/demo_without_$ID.out 2>&1; WITHOUT_RC=$?
 WITHOUT=$(grep -E "^test result" /tmp/demo_without_$ID.out | head -1)
-git stash pop -q
+git apply "$OUT/patch.diff" || exit 2
 python3 - "$OUT/meta.json" "$ID" "$PROP" "$SUMMARY" "$MISSING" "$WITH_RC" "$WITH" "$WITHOUT_RC" "$WITHOUT" <<'PY'
 import json,sys
 out,idd,prop,summary,missing,wrc,w,worc,wo=sys.argv[1:]
@@ -41,7 +42,7 @@ except Exception: old={}
 old.update({"id":idd,"property":prop,"author":"independent sub-agent (saw only the property text and its own worktree)",
  "confirmed":{"suite_with_change":summary,"baseline_tests_not_passing_with_change":missing,
    "demo_with_change":{"exit":int(wrc),"result":w},"demo_without_change":{"exit":int(worc),"result":wo},
-   "commands":["cargo nextest run --workspace --no-fail-fast --test-threads 8 --offline (demo file moved away)","cargo test --offline --test demo_mutant (with the change)","git stash -- src; cargo test --offline --test demo_mutant; git stash pop"]}})
+   "commands":["cargo nextest run --workspace --no-fail-fast --test-threads 8 --offline (demo file moved away)","cargo test --offline --test demo_mutant (with the change)","git apply -R patch.diff; cargo test --offline --test demo_mutant; git apply patch.diff"]}})
 old.setdefault("run_checks",[prop])
 json.dump(old,open(out,'w'),indent=1)
 print(json.dumps(old["confirmed"],indent=1))
